@@ -63,6 +63,10 @@ CLAIMED['C13'] = ('exploration', 'deterministic simulation: seeded pairing confi
     'All 100 cells of the association-model table (5x5 IO capabilities x legacy/SC x MITM) are walked in every tier; seeded search over SC/MITM/bonding and 4-bit key-distribution masks per side, central- or peripheral-initiated pairing, user answers (reject, wrong passkey, compare no, confirm no, delays, passkey 000000), one SMP PDU corrupted in flight, a second pairing on the same connection, then reconnection in the same and in swapped roles with encrypt(). Oracle: pair() and the responder event both conclude, both succeed or both fail, link encrypted, association model and display/input roles equal the transcribed Table 2.8, key authenticated flags <=> passkey/numeric comparison, SC LTKs equal, legacy copies equal what the peer generated, no keys after a forced failure, and on reconnection the key in LE Enable Encryption equals the key in the peripheral Long Term Key Request Reply. Sampling, not proof.',
     'Trusted: transcription of Table 2.8 (DESIGN.md App. C); identity address type = static random so that bonded keys are found by address; OOB and CTKD over BR/EDR not covered; LTK request event injected because the virtual controller grants encryption by itself.', 'DESIGN.md §5 C13')
 
+CLAIMED['C19'] = ('exploration', 'deterministic simulation: seeded SDP record sets/queries with 1-3 simultaneous clients, AVDTP/AVCTP fragment sequences with injected fragment faults, AVDTP stream procedure sequences',
+    'Four seeded scenario families over real L2CAP on BR/EDR links: SDP client transactions against an independent matcher (every UUID of the pattern, nested sequences, 16/128-bit forms) and attribute filter, for client MTU 48..65535 and 1-3 clients connected and querying at once; AVDTP send_message <-> MessageAssembler in both directions for payloads from 0 to 255 fragments (every packet <= peer MTU, byte-identical reassembly) with a dropped/duplicated/mislabelled fragment on one message of a sequence costing only that message; AVCTP reassembly of spec-conformant fragments from a scripted peer with the same faults; AVDTP configure/open/start/suspend/close/abort sequences (legal and illegal) leaving source and sink in the same state as a reference machine. Sampling, not proof.',
+    'Trusted: the reference matcher/filter and fragmenters in props/c19.py; SDP answers needing more than 60 continuation rounds are not compared; codec used to size expected SDP answers. Open findings: AVCTP assembler (fix conflicts with an existing test), no initiator-side Stream.abort.', 'DESIGN.md §5 C19')
+
 NOT_YET = {}
 
 
